@@ -69,9 +69,32 @@ structure Shape where
   onExhaustion : String
   deriving DecidableEq, Repr
 
+/-- How `PassSequence.roll_passes` - the list every statement of the two functions takes the passes from - is
+    obtained, as recognised by the translator: `return list(u for u in self.<source> if isinstance(u, <filterClass>))`.
+    `fresh = true`: the body is that single `return`, i.e. the list is built anew from the live unit list on EVERY access
+    and nothing is kept between two accesses. -/
+structure PassesShape where
+  source : String
+  filterClass : String
+  fresh : Bool
+  deriving DecidableEq, Repr
+
 inductive Err where
   | indexError
   deriving DecidableEq, Repr
+
+/-- a unit of the sequence as far as the velocity calculation looks at it: a roll pass (`isinstance(u, BaseRollPass)`,
+    with its usable cross-section area) or anything else (transport, rotator, nested sequence, …) -/
+inductive SeqUnit (α : Type) where
+  | pass (usable : α)
+  | other
+
+/-- `PassSequence.roll_passes` of the unit list as it is NOW (model of a `PassesShape` with `fresh = true`):
+    the usable areas of the roll passes, in line order -/
+def rollPasses {α : Type} : List (SeqUnit α) → List α
+  | [] => []
+  | .pass a :: us => a :: rollPasses us
+  | .other :: us => rollPasses us
 
 variable {α : Type}
 
